@@ -355,6 +355,13 @@ def t6_whole_input(ctx):
     pu = q.call_exprs(b, "Vec::push")
     acc = sig(q.novers(mir.strip(pu[0][1][2][0]))) if len(pu) == 1 else None
     r.check(len(pu) == 1 and cur is not None and sig(q.novers(pu[0][1][2][1])) == "try(OpCode::decode(%s))" % cur, "collects", "every decoded op is kept in order", "pushes: %s" % [sig(x[1]) for x in pu])
+    if len(pu) == 1 and len(dc) == 1:
+        # every decoded instruction is kept: from the decode call the loop cannot continue (or finish) without passing the push.  An instruction that is
+        # silently dropped (padding, no-ops, ..) makes two byte strings decode to one program and shifts every relative jump and loop body after it
+        latches_ = [l for h_, bl_, ls_ in b.loops() for l in ls_]
+        wo = b.reachable(dc[0][0], removed=[pu[0][0]])
+        bad = [x for x in latches_ + oks if x in wo]
+        r.check(not bad, "collects/every", "no decoded op is dropped", "from the decode call the loop continues / Ok is reached without the push (bb%s): a decoded instruction can be dropped" % bad, b.where(pu[0][0]))
     for bb, e in q.result_blocks(b)["Ok"]:
         got = sig(q.novers(dict(e[3])["0"]))
         r.check(acc is not None and got in ("Covenant::Covenant{0: %s}" % acc, "Covenant::Covenant{0: Arc::new(%s)}" % acc), "result", "Covenant(collected ops)", "from_bytes returns %s" % got)
